@@ -79,7 +79,9 @@ impl Affiliate {
         self.0.registered
     }
     pub fn is_default(&self) -> bool {
-        self.id().starts_with("default")
+        // Exactly the default affiliate (or its registered variant), not any
+        // affiliate whose name merely begins with "default".
+        self.id() == "default" || self.id() == "default (R)"
     }
 
     // Special transactions (such as splits) may specify the global affiliate,
